@@ -294,6 +294,19 @@ func typeBase(t types.Type) string {
 	return t.String()
 }
 
+// FieldAddrNameOfLoad returns "T.f" when v is a load of that field, else "".
+func FieldAddrNameOfLoad(v ssa.Value) string {
+	switch x := v.(type) {
+	case *ssa.UnOp:
+		if x.Op == token.MUL {
+			return FieldAddrName(x.X)
+		}
+	case *ssa.Field:
+		return FieldAddrName(x)
+	}
+	return ""
+}
+
 // IsFieldLoad reports whether v loads field "T.f" (after Forward).
 func IsFieldLoad(v ssa.Value, tf string) bool {
 	v = Forward(v)
@@ -422,7 +435,11 @@ func describe(v ssa.Value, d int) string {
 	case *ssa.Extract:
 		return describe(x.Tuple, d+1) + "#" + fmt.Sprint(x.Index)
 	case *ssa.Call:
-		return "call(" + Short(CalleeName(x)) + ")"
+		as := []string{}
+		for _, a := range x.Call.Args {
+			as = append(as, describe(a, d+2))
+		}
+		return "call(" + Short(CalleeName(x)) + ")(" + strings.Join(as, ",") + ")"
 	case *ssa.IndexAddr:
 		return describe(x.X, d+1) + "[" + describe(x.Index, d+1) + "]"
 	case *ssa.Index:
@@ -534,6 +551,23 @@ func ErrNil(idx int, callee func(ssa.Instruction) bool) Atom {
 	return Cmp(token.EQL, func(v ssa.Value) bool { return IsResult(v, idx, callee) }, IsNil)
 }
 
+// IsLenOf matches len(x) where x satisfies pred.
+func IsLenOf(pred func(ssa.Value) bool) func(ssa.Value) bool {
+	return func(v ssa.Value) bool {
+		c, ok := Strip(v).(*ssa.Call)
+		if !ok {
+			return false
+		}
+		b, ok := c.Call.Value.(*ssa.Builtin)
+		return ok && b.Name() == "len" && pred(c.Call.Args[0])
+	}
+}
+
+// FieldLoad matches loads of field "T.f".
+func FieldLoad(tf string) func(ssa.Value) bool {
+	return func(v ssa.Value) bool { return IsFieldLoad(v, tf) }
+}
+
 // AnyVal matches every value.
 func AnyVal(ssa.Value) bool { return true }
 
@@ -564,7 +598,7 @@ func IsGlobal(rel, name string) func(ssa.Value) bool {
 // IsParam matches the parameter called name.
 func IsParam(name string) func(ssa.Value) bool {
 	return func(v ssa.Value) bool {
-		p, ok := Strip(v).(*ssa.Parameter)
+		p, ok := Strip(Forward(Strip(v))).(*ssa.Parameter)
 		return ok && p.Name() == name
 	}
 }
